@@ -40,6 +40,7 @@ type scenario struct {
 	Pads    []int  `json:"pads"`
 	Bits    string `json:"bits"` // sample | all | edge : which bit(s) a flip move flips
 	NSample int    `json:"nsample"`
+	Kind    string `json:"kind"`  // "" (plan) | reflect
 	Chunk   string `json:"chunk"` // whole | random | byte | frame
 	Seed    int64  `json:"seed"`
 }
@@ -72,7 +73,11 @@ func main() {
 		var raw interface{}
 		json.Unmarshal(sc.Bytes(), &raw)
 		w.Begin(s.ID, raw)
-		runScenario(&s)
+		if s.Kind == "reflect" {
+			runReflect(&s)
+		} else {
+			runScenario(&s)
+		}
 	}
 	if err := w.Close(); err != nil {
 		panic(err)
@@ -398,4 +403,116 @@ func oneRun(b *o4.Bridge, s *scenario, rng *mrand.Rand, bit int) bool {
 	l.A.Close()
 	l.B.Close()
 	return true
+}
+
+// runReflect: real client <-> real server.  One side writes, the peer writes nothing; the attacker feeds the writer's own
+// ciphertext back to it as if it came from the peer.  The victim must deliver nothing and report an error.
+func runReflect(s *scenario) {
+	b, err := o4.NewBridge("", 0, false)
+	if err != nil {
+		w.Emit(vt.Ev{"event": "DriverDead", "why": err.Error()})
+		return
+	}
+	defer b.Close()
+	rng := mrand.New(mrand.NewSource(s.Seed))
+	for _, victim := range []string{"client", "server"} {
+		w.Emit(vt.Ev{"event": "Run", "bit": -1, "victim": victim})
+		l := wire.NewLink(false, 0)
+		type hres struct {
+			c   net.Conn
+			err error
+		}
+		sch, cch := make(chan hres, 1), make(chan hres, 1)
+		go func() { c, err := b.RealServer()(l.B); sch <- hres{c, err} }()
+		go func() { c, err := b.RealClient(0, false)(l.A); cch <- hres{c, err} }()
+		// forward the handshake transparently
+		stop := make(chan struct{})
+		go func() {
+			for {
+				select {
+				case <-stop:
+					return
+				default:
+				}
+				if x := l.A.Take(); len(x) > 0 {
+					l.B.Deliver(x)
+				}
+				if x := l.B.Take(); len(x) > 0 {
+					l.A.Deliver(x)
+				}
+				time.Sleep(200 * time.Microsecond)
+			}
+		}()
+		sr, cr := <-sch, <-cch
+		if sr.err != nil || cr.err != nil {
+			close(stop)
+			w.Emit(vt.Ev{"event": "DriverDead", "why": fmt.Sprint("handshake: ", sr.err, cr.err)})
+			return
+		}
+		time.Sleep(5 * time.Millisecond)
+		close(stop)
+		time.Sleep(time.Millisecond)
+		l.A.Take()
+		l.B.Take()
+		vc, vraw := cr.c, l.A
+		if victim == "server" {
+			vc, vraw = sr.c, l.B
+		}
+		// the victim's application reader: anything it delivers is wrong (its peer wrote nothing)
+		w.Emit(vt.Ev{"event": "Plan", "intact": 0, "total": 0, "intact_frames": 0})
+		done := make(chan string, 1)
+		go func() {
+			o := 0
+			buf := make([]byte, 4096)
+			for {
+				k, err := vc.Read(buf)
+				if k > 0 {
+					w.Emit(vt.Ev{"event": "ReadRet", "d": "x", "off": o, "n": k, "ok": false, "err": "", "note": "the peer wrote nothing: these are reflected bytes"})
+					o += k
+				}
+				if err != nil {
+					done <- err.Error()
+					return
+				}
+			}
+		}()
+		data := make([]byte, 1000+rng.Intn(4000))
+		rng.Read(data)
+		go vc.Write(data)
+		vraw.WaitOut(len(data), 5*time.Second)
+		time.Sleep(2 * time.Millisecond)
+		own := vraw.Take()
+		vraw.Deliver(own) // its own ciphertext comes back
+		var e string
+		isDone := false
+		l.WaitFor(10*time.Second, func(a, bs wire.State) bool {
+			st := a
+			if vraw == l.B {
+				st = bs
+			}
+			select {
+			case e = <-done:
+				isDone = true
+				return true
+			default:
+			}
+			return st.Parked && st.Inbox == 0
+		})
+		if !isDone {
+			select {
+			case e = <-done:
+				isDone = true
+			case <-time.After(100 * time.Millisecond):
+			}
+		}
+		if isDone {
+			w.Emit(vt.Ev{"event": "End", "err": e})
+		} else {
+			w.Emit(vt.Ev{"event": "End", "err": "", "note": "reflected ciphertext was consumed without an error"})
+		}
+		cr.c.Close()
+		sr.c.Close()
+		l.A.Close()
+		l.B.Close()
+	}
 }
